@@ -517,19 +517,9 @@ pub fn exch_step_2a(
         pre_append.extend_from_slice(&g3);
 
         sk = kdf(&pre_append, klen);
-        fn is_zero(x: &Vec<u8>, klen: usize) -> bool {
-            let mut ret = true;
-            for i in 0..klen {
-                if x[i] != 0 {
-                    ret = false;
-                }
-            }
-            ret
-        }
-
-        if !is_zero(&sk, klen) {
-            break;
-        }
+        // nothing in this step is random: repeating it cannot change the key, and GM/T 0044.3 defines
+        // SK_A as this KDF output whatever its value
+        break;
     }
     Ok(sk)
 }
